@@ -55,10 +55,11 @@ VARIABLES batch,        \* b -> [puts, dels]   (collapsed ops of batch b)
           inel,         \* ineligibleForRemoval
           elig,         \* eligibleForRemoval (epochs)
           rdr,          \* snapshot held by a reader, or NoSnap
-          cPc, cSnap, cSched, cCopied  \* online copy
+          cPc, cSnap, cSched, cCopied,  \* online copy
+          dirty         \* disk/inel/bolt/elig changed since the last purge round began
 vars == <<batch, nsub, intro, segdocs, root, nextEp, nextSid, wst, pend, acked,
           pPc, pSnap, pAcks, pNew, lastP, mPc, mSnap, mTask, mNew, lastM,
-          bolt, disk, inel, elig, rdr, cPc, cSnap, cSched, cCopied>>
+          bolt, disk, inel, elig, rdr, cPc, cSnap, cSched, cCopied, dirty>>
 
 -----------------------------------------------------------------------------
 -----------------------------------------------------------------------------
@@ -84,6 +85,7 @@ Init == /\ batch = [n \in 1..MaxB |-> NoBatch] /\ nsub = 0 /\ intro = <<>>
         /\ bolt = [e \in 1..MaxEp |-> NoSnap] /\ disk = {} /\ inel = {} /\ elig = {}
         /\ rdr = NoSnap
         /\ cPc = "idle" /\ cSnap = NoSnap /\ cSched = {} /\ cCopied = {}
+        /\ dirty = FALSE
 
 Up == nextEp <= MaxEp /\ nextSid <= MaxSid
 
@@ -100,6 +102,7 @@ Prepare(w, bt) ==
   /\ nextSid' = nextSid + 1
   /\ UNCHANGED <<intro, root, nextEp, pend, acked, pPc, pSnap, pAcks, pNew, lastP,
                  mPc, mSnap, mTask, mNew, lastM, bolt, disk, inel, elig, rdr, cPc, cSnap, cSched, cCopied>>
+  /\ UNCHANGED dirty
 
 \* introducer.go introduceSegment
 IntroSegment(w) ==
@@ -114,6 +117,7 @@ IntroSegment(w) ==
   /\ nextEp' = nextEp + 1
   /\ UNCHANGED <<batch, nsub, segdocs, nextSid, acked, pPc, pSnap, pAcks, pNew, lastP,
                  mPc, mSnap, mTask, mNew, lastM, bolt, disk, elig, rdr, cPc, cSnap, cSched, cCopied>>
+  /\ dirty' = TRUE
 
 \* safe mode: Batch returns after <-introduction.persisted
 BatchReturn(w) ==
@@ -121,6 +125,7 @@ BatchReturn(w) ==
   /\ wst' = [wst EXCEPT ![w] = IdleW]
   /\ UNCHANGED <<batch, nsub, intro, segdocs, root, nextEp, nextSid, pend, acked, pPc, pSnap, pAcks, pNew, lastP,
                  mPc, mSnap, mTask, mNew, lastM, bolt, disk, inel, elig, rdr, cPc, cSnap, cSched, cCopied>>
+  /\ UNCHANGED dirty
 
 \* ---------------- persister (persister.go) ----------------
 PTake ==
@@ -129,6 +134,7 @@ PTake ==
   /\ pPc' = IF WithMemMerge /\ Cardinality(MemSids(root)) >= 2 THEN "mmWrite" ELSE "write"
   /\ UNCHANGED <<batch, nsub, intro, segdocs, root, nextEp, nextSid, wst, acked, pNew, lastP,
                  mPc, mSnap, mTask, mNew, lastM, bolt, disk, inel, elig, rdr, cPc, cSnap, cSched, cCopied>>
+  /\ UNCHANGED dirty
 
 \* mergeAndPersistInMemorySegments: mark the new name ineligible, merge all
 \* in-memory segments of pSnap into one new FILE (fused: nobody can observe the
@@ -141,6 +147,7 @@ PMMWrite ==
   /\ pPc' = "mmIntro"
   /\ UNCHANGED <<batch, nsub, intro, root, nextEp, wst, pend, acked, pSnap, pAcks, lastP,
                  mPc, mSnap, mTask, mNew, lastM, bolt, elig, rdr, cPc, cSnap, cSched, cCopied>>
+  /\ dirty' = TRUE
 
 PMMIntro ==
   /\ Up /\ pPc = "mmIntro"
@@ -151,6 +158,7 @@ PMMIntro ==
   /\ nextEp' = nextEp + 1
   /\ UNCHANGED <<batch, nsub, intro, segdocs, nextSid, wst, pend, acked, pSnap, pAcks, pNew, lastP,
                  mPc, mSnap, mTask, mNew, lastM, bolt, disk, elig, rdr, cPc, cSnap, cSched, cCopied>>
+  /\ dirty' = TRUE
 
 \* persistSnapshotMaybeMerge: persist the EQUIVALENT snapshot under the OLD epoch
 PMMCommit ==
@@ -162,6 +170,7 @@ PMMCommit ==
   /\ pPc' = "ack"
   /\ UNCHANGED <<batch, nsub, intro, segdocs, root, nextEp, nextSid, wst, pend, acked, pSnap, pAcks, pNew, lastP,
                  mPc, mSnap, mTask, mNew, lastM, disk, elig, rdr, cPc, cSnap, cSched, cCopied>>
+  /\ dirty' = TRUE
 
 \* persistSnapshotDirect: write every in-memory segment of pSnap to its file
 PWrite ==
@@ -169,6 +178,7 @@ PWrite ==
   /\ pPc' = IF MemSids(pSnap) = {} THEN "commit" ELSE "intro"
   /\ UNCHANGED <<batch, nsub, intro, segdocs, root, nextEp, nextSid, wst, pend, acked, pSnap, pAcks, pNew, lastP,
                  mPc, mSnap, mTask, mNew, lastM, bolt, inel, elig, rdr, cPc, cSnap, cSched, cCopied>>
+  /\ dirty' = TRUE
 
 PIntro ==
   /\ Up /\ pPc = "intro"
@@ -176,6 +186,7 @@ PIntro ==
   /\ nextEp' = nextEp + 1 /\ pPc' = "commit"
   /\ UNCHANGED <<batch, nsub, intro, segdocs, nextSid, wst, pend, acked, pSnap, pAcks, pNew, lastP,
                  mPc, mSnap, mTask, mNew, lastM, bolt, disk, inel, elig, rdr, cPc, cSnap, cSched, cCopied>>
+  /\ dirty' = TRUE
 
 \* tx.Commit + Sync, then un-mark the names the committed snapshot carries
 PCommit ==
@@ -186,6 +197,7 @@ PCommit ==
   /\ pPc' = "ack"
   /\ UNCHANGED <<batch, nsub, intro, segdocs, root, nextEp, nextSid, wst, pend, acked, pSnap, pAcks, pNew, lastP,
                  mPc, mSnap, mTask, mNew, lastM, disk, elig, rdr, cPc, cSnap, cSched, cCopied>>
+  /\ dirty' = TRUE
 
 \* close the persisted channels / fire callbacks of the batches taken in PTake
 PAck ==
@@ -193,6 +205,7 @@ PAck ==
   /\ pPc' = IF root.ep # pSnap.ep \/ ~WithPurge THEN "idle" ELSE "purgeB"
   /\ UNCHANGED <<batch, nsub, intro, segdocs, root, nextEp, nextSid, wst, pend, pSnap, pAcks, pNew,
                  mPc, mSnap, mTask, mNew, lastM, bolt, disk, inel, elig, rdr, cPc, cSnap, cSched, cCopied>>
+  /\ UNCHANGED dirty
 
 \* IndexSnapshot.DecRef reaching zero -> go AddEligibleForRemoval(epoch)
 \* (asynchronous; modelled as an independent step for any epoch nobody holds)
@@ -201,6 +214,15 @@ Release(e) ==
   /\ elig' = elig \cup {e}
   /\ UNCHANGED <<batch, nsub, intro, segdocs, root, nextEp, nextSid, wst, pend, acked, pPc, pSnap, pAcks, pNew, lastP,
                  mPc, mSnap, mTask, mNew, lastM, bolt, disk, inel, rdr, cPc, cSnap, cSched, cCopied>>
+  /\ dirty' = TRUE
+
+\* the persister loop also runs when only woken by the merger (no new snapshot):
+\* it then goes straight to removeOldData
+PWakePurge ==
+  /\ WithPurge /\ pPc = "idle" /\ dirty /\ root.ep = lastP
+  /\ pPc' = "purgeB"
+  /\ UNCHANGED <<batch, nsub, intro, segdocs, root, nextEp, nextSid, wst, pend, acked, pSnap, pAcks, pNew, lastP,
+                 mPc, mSnap, mTask, mNew, lastM, bolt, disk, inel, elig, rdr, cPc, cSnap, cSched, cCopied, dirty>>
 
 \* removeOldBoltSnapshots: eligible epochs that are not among the newest KeepN
 PPurgeB ==
@@ -211,6 +233,7 @@ PPurgeB ==
   /\ pPc' = "purgeZ"
   /\ UNCHANGED <<batch, nsub, intro, segdocs, root, nextEp, nextSid, wst, pend, acked, pSnap, pAcks, pNew, lastP,
                  mPc, mSnap, mTask, mNew, lastM, disk, inel, rdr, cPc, cSnap, cSched, cCopied>>
+  /\ dirty' = FALSE
 
 \* removeOldZapFiles: remove what no bolt snapshot names, unless ineligible or scheduled for copy
 PPurgeZ ==
@@ -219,12 +242,14 @@ PPurgeZ ==
   /\ pPc' = "idle"
   /\ UNCHANGED <<batch, nsub, intro, segdocs, root, nextEp, nextSid, wst, pend, acked, pSnap, pAcks, pNew, lastP,
                  mPc, mSnap, mTask, mNew, lastM, bolt, inel, elig, rdr, cPc, cSnap, cSched, cCopied>>
+  /\ UNCHANGED dirty
 
 \* ---------------- file merger (merge.go) ----------------
 MTake == /\ Up /\ WithMerger /\ mPc = "idle" /\ root.ep # lastM /\ root.ep > 0
          /\ mSnap' = root /\ mPc' = "plan"
          /\ UNCHANGED <<batch, nsub, intro, segdocs, root, nextEp, nextSid, wst, pend, acked, pPc, pSnap, pAcks, pNew, lastP,
                         mTask, mNew, lastM, bolt, disk, inel, elig, rdr, cPc, cSnap, cSched, cCopied>>
+  /\ UNCHANGED dirty
 
 \* any plan the planner may produce: a task over file segments of the snapshot
 \* (mark the new name, merge, write the file: fused as for the persister)
@@ -240,6 +265,7 @@ MPlanWrite(T) ==
           /\ mPc' = "intro" /\ lastM' = lastM
   /\ UNCHANGED <<batch, nsub, intro, root, nextEp, wst, pend, acked, pPc, pSnap, pAcks, pNew, lastP,
                  mSnap, bolt, elig, rdr, cPc, cSnap, cSched, cCopied>>
+  /\ dirty' = TRUE
 
 MIntro ==
   /\ Up /\ mPc = "intro"
@@ -250,6 +276,7 @@ MIntro ==
   /\ nextEp' = nextEp + 1
   /\ UNCHANGED <<batch, nsub, intro, segdocs, nextSid, wst, pend, acked, pPc, pSnap, pAcks, pNew, lastP,
                  mSnap, mTask, mNew, lastM, bolt, disk, elig, rdr, cPc, cSnap, cSched, cCopied>>
+  /\ dirty' = TRUE
 
 \* skipped introduction: un-mark the new file; always (deferred cleanup): un-mark the inputs
 MClean ==
@@ -258,14 +285,15 @@ MClean ==
   /\ lastM' = mSnap.ep /\ mPc' = "idle"
   /\ UNCHANGED <<batch, nsub, intro, segdocs, root, nextEp, nextSid, wst, pend, acked, pPc, pSnap, pAcks, pNew, lastP,
                  mSnap, mTask, mNew, bolt, disk, elig, rdr, cPc, cSnap, cSched, cCopied>>
+  /\ dirty' = TRUE
 
 \* ---------------- reader ----------------
 ROpen == /\ WithReader /\ rdr = NoSnap /\ root.ep > 0 /\ rdr' = root
          /\ UNCHANGED <<batch, nsub, intro, segdocs, root, nextEp, nextSid, wst, pend, acked, pPc, pSnap, pAcks, pNew, lastP,
-                        mPc, mSnap, mTask, mNew, lastM, bolt, disk, inel, elig, cPc, cSnap, cSched, cCopied>>
+                        mPc, mSnap, mTask, mNew, lastM, bolt, disk, inel, elig, cPc, cSnap, cSched, cCopied, dirty>>
 RClose == /\ rdr # NoSnap /\ rdr' = NoSnap
           /\ UNCHANGED <<batch, nsub, intro, segdocs, root, nextEp, nextSid, wst, pend, acked, pPc, pSnap, pAcks, pNew, lastP,
-                         mPc, mSnap, mTask, mNew, lastM, bolt, disk, inel, elig, cPc, cSnap, cSched, cCopied>>
+                         mPc, mSnap, mTask, mNew, lastM, bolt, disk, inel, elig, cPc, cSnap, cSched, cCopied, dirty>>
 
 \* ---------------- online copy (CopyReader / CopyTo / CloseCopyReader) ----------------
 \* CopyReader schedules every file name of the root, including the names
@@ -274,20 +302,22 @@ COpen == /\ WithCopy /\ cPc = "idle" /\ root.ep > 0
          /\ cSnap' = root /\ cSched' = Sids(root) /\ cCopied' = {} /\ cPc' = "copying"
          /\ UNCHANGED <<batch, nsub, intro, segdocs, root, nextEp, nextSid, wst, pend, acked, pPc, pSnap, pAcks, pNew, lastP,
                         mPc, mSnap, mTask, mNew, lastM, bolt, disk, inel, elig, rdr>>
+         /\ dirty' = TRUE
 \* one segment: a file segment is copied from the directory, an in-memory one is written afresh
 CFile(s) == /\ cPc = "copying" /\ s \in Sids(cSnap) \ cCopied
             /\ cCopied' = cCopied \cup {s}
             /\ UNCHANGED <<batch, nsub, intro, segdocs, root, nextEp, nextSid, wst, pend, acked, pPc, pSnap, pAcks, pNew, lastP,
-                           mPc, mSnap, mTask, mNew, lastM, bolt, disk, inel, elig, rdr, cPc, cSnap, cSched>>
+                           mPc, mSnap, mTask, mNew, lastM, bolt, disk, inel, elig, rdr, cPc, cSnap, cSched, dirty>>
 CClose == /\ cPc = "copying" /\ cCopied = Sids(cSnap)
           /\ cPc' = "idle" /\ cSched' = {} /\ cSnap' = NoSnap
           /\ UNCHANGED <<batch, nsub, intro, segdocs, root, nextEp, nextSid, wst, pend, acked, pPc, pSnap, pAcks, pNew, lastP,
                          mPc, mSnap, mTask, mNew, lastM, bolt, disk, inel, elig, rdr, cCopied>>
+          /\ dirty' = TRUE
 
 Next == \/ \E w \in Writers, bt \in BatchShapes : Prepare(w, bt)
         \/ \E w \in Writers : IntroSegment(w) \/ BatchReturn(w)
         \/ PTake \/ PMMWrite \/ PMMIntro \/ PMMCommit \/ PWrite \/ PIntro \/ PCommit \/ PAck
-        \/ (WithPurge /\ ((\E e \in 1..MaxEp : Release(e)) \/ PPurgeB \/ PPurgeZ))
+        \/ (WithPurge /\ ((\E e \in 1..MaxEp : Release(e)) \/ PWakePurge \/ PPurgeB \/ PPurgeZ))
         \/ MTake \/ (\E T \in SUBSET (1..MaxSid) : MPlanWrite(T)) \/ MIntro \/ MClean
         \/ ROpen \/ RClose \/ COpen \/ (\E s \in 1..MaxSid : CFile(s)) \/ CClose
 Spec == Init /\ [][Next]_vars
@@ -327,7 +357,7 @@ RootFilesOnDisk == Files(root) \subseteq disk
 CopyFilesOnDisk == cPc # "idle" => (Files(cSnap) \ cCopied) \subseteq disk
 ReaderFilesOnDisk == rdr # NoSnap => Files(rdr) \subseteq disk
 \* ... and unneeded ones do not accumulate
-Quiescent == /\ pPc = "idle" /\ mPc = "idle" /\ rdr = NoSnap /\ cPc = "idle"
+Quiescent == /\ ~dirty /\ pPc = "idle" /\ mPc = "idle" /\ rdr = NoSnap /\ cPc = "idle"
              /\ root.ep = lastP /\ (WithMerger => root.ep = lastM) /\ pend = {}
              /\ \A w \in Writers : wst[w].st = "idle"
 NoOrphansWhenQuiescent == Quiescent => (disk \subseteq Named /\ inel = {})
